@@ -14,7 +14,7 @@ RULE = ('every ordered selection of <= K of the equations {X=f(Y), X=g(Y,Z), Y=h
         'findall/3 and through assertz + later read-back. At the innermost point get_value of X,Y,Z must be the fully '
         'dereferenced reference term (no bound variable anywhere inside), to_python must equal the reference value at '
         'every depth; the saved get_value results must be structurally unchanged after all generators are closed / '
-        'the query has finished (the [v.get_value() for _ in q] idiom). (3) bind/undo histories: every sequence of <= D operations "unify one of 11 equations (variable-variable links, structures, list cells with variable tails)" / "undo the most recent unification" with get_value of ALL variables taken after every operation (a lookup is itself an operation: it must not change what later lookups see) compared with the stack of active substitutions; at the end of every history the lookups are also run under every recursion limit from the current stack depth upwards (RecursionError at every depth of the dereferencing) and must afterwards give the same values. (4) long values: a list of N cells and N nested f(_) for N in {8,33,64,100,101,102,128,160}, bound one cell per equation in 3 orders through the API and outer-first by compiled recursive predicates (also through findall and assertz), the saved value walked without dereferencing at the answer and after backtracking. states = distinct (sequence outcome) '
+        'the query has finished (the [v.get_value() for _ in q] idiom). (3) bind/undo histories: every sequence of <= D operations "unify one of 11 equations (variable-variable links, structures, list cells with variable tails)" / "undo the most recent unification" with get_value of ALL variables taken after every operation (a lookup is itself an operation: it must not change what later lookups see) compared with the stack of active substitutions; at the end of every history the lookups are also run under every recursion limit from the current stack depth upwards (RecursionError at every depth of the dereferencing) and must afterwards give the same values. (5) interleaved lifetimes: 1..3 unrelated unifications are active before the equations start and are closed after the j-th equation, for every j (bindings of different queries are not undone in reverse order). (4) long values: a list of N cells and N nested f(_) for N in {8,33,64,100,101,102,128,160}, bound one cell per equation in 3 orders through the API and outer-first by compiled recursive predicates (also through findall and assertz), the saved value walked without dereferencing at the answer and after backtracking. states = distinct (sequence outcome) '
         'observations; transitions = generator steps on the real engine; non-trivial = the value of X contains a '
         'variable that was bound after X')
 ASSUMPTIONS = ['sequences needing a cyclic term are skipped', 'values nested deeper than 160 levels are not covered (get_value is recursive; the Python recursion limit is reached at about 250 levels)', 'to_python of a partial list is unspecified and not compared']
@@ -91,6 +91,53 @@ def ref_envs(seq):
         env = e
         envs.append(env)
     return envs, True
+
+
+def check_api_interleaved(seq, nb, pos):
+    """an UNRELATED enumeration holding nb bindings is opened first and closed (oldest first) after
+    the first `pos` equations of seq: lifetimes of bindings are not nested across queries"""
+    envs, allok = ref_envs(seq)  # may raise Cyclic
+    yp = impl.YP()
+    vm = {}
+    ev = [impl.to_engine(yp, v, vm) for v in VARS]
+    others = []
+    for j in range(nb):
+        g = iter(impl.engine.unify(yp.variable(), yp.atom('unrelated%d' % j)))
+        next(g)
+        others.append(g)
+    gens = []
+    n_ok = 0
+    label = 'Python API: %d unrelated unification(s) active first; then %s; the unrelated ones are closed after equation %d\n' % (
+        nb, ' ; '.join('%s = %s' % (show_term(EQS[i][0]), show_term(EQS[i][1])) for i in seq), pos)
+    for idx, i in enumerate(seq):
+        g = iter(impl.engine.unify(impl.to_engine(yp, EQS[i][0], vm), impl.to_engine(yp, EQS[i][1], vm)))
+        gens.append(g)
+        try:
+            next(g)
+        except StopIteration:
+            break
+        n_ok += 1
+        if idx + 1 == pos:
+            for o in others:
+                o.close()
+            others = []
+    if n_ok != len(envs):
+        return ('violation', 'interleaved:unification-count', label + '%d equations succeeded, the reference says %d' % (n_ok, len(envs)))
+    env = envs[-1] if envs else {}
+    saved = [impl.engine.get_value(v) for v in ev]
+    saved2 = [v.get_value() for v in ev]
+    exp = canon(VARS, env)
+    for nm, sv in (('get_value(v)', saved), ('v.get_value()', saved2)):
+        r_in = raws(sv)
+        if r_in != exp:
+            return ('violation', 'interleaved:get_value-not-fully-dereferenced', label + '%s of (X,Y,Z,W) is %r, expected %r' % (nm, r_in, exp))
+    for g in reversed(gens):
+        g.close()
+    for o in others:
+        o.close()
+    if raws(saved) != exp:
+        return ('violation', 'interleaved:saved-value-changed-after-backtracking', label + 'saved values read %r after closing, were %r' % (raws(saved), exp))
+    return ('ok', exp, len(gens) + nb, True)
 
 
 def check_api_user_terms(seq):
@@ -352,7 +399,7 @@ NSH = 32
 def plan(tier):
     kmax = 4 if tier == 'quick' else 5
     hd = 5 if tier == 'quick' else 6
-    return [(kmax, k, NSH) for k in range(NSH)] + [('hist', hd, k, 2 * NSH) for k in range(2 * NSH)] + [('long', k, 8) for k in range(8)]
+    return [(kmax, k, NSH) for k in range(NSH)] + [('hist', hd, k, 2 * NSH) for k in range(2 * NSH)] + [('long', k, 8) for k in range(8)] + [('interleaved', 3 if tier == 'quick' else 4, k, NSH) for k in range(NSH)]
 
 
 def run_histories(spec, acc, kind, sigprefix):
@@ -402,6 +449,29 @@ def run_shard(spec):
             acc.n['nontrivial'] += 1 if r[3] else 0
             acc.outcome(('long', r[1]))
         return acc
+    if spec[0] == 'interleaved':
+        _, kmax, k, n = spec
+        for idx, seq in sequences(kmax):
+            if idx % n != k:
+                continue
+            for nb in (1, 2, 3):
+                for pos in range(1, len(seq) + 1):
+                    acc.n['evaluations'] += 1
+                    try:
+                        r = check_api_interleaved(seq, nb, pos)
+                    except (Cyclic, Unspecified, Budget):
+                        acc.skipped['cyclic'] += 1
+                        continue
+                    except Exception as e:  # noqa: BLE001
+                        r = ('violation', 'interleaved:raises:' + impl.exc_sig(e), '%s %d %d raised %r' % (seq, nb, pos, e))
+                    acc.n['validated'] += 1
+                    if r[0] == 'violation':
+                        acc.violation(r[1], ('I', len(seq), idx, nb, pos), {'interleaved': [list(seq), nb, pos]}, r[2], key='interleaved|%s|%d|%d' % (list(seq), nb, pos))
+                        continue
+                    acc.n['transitions'] += r[2]
+                    acc.n['nontrivial'] += 1
+                    acc.outcome(('interleaved', r[1]))
+        return acc
     kmax, k, n = spec
     for idx, seq in sequences(kmax):
         if idx % n != k:
@@ -434,6 +504,12 @@ def run_shard(spec):
 
 
 def replay(case):
+    if 'interleaved' in case:
+        try:
+            r = check_api_interleaved(tuple(case['interleaved'][0]), case['interleaved'][1], case['interleaved'][2])
+        except (Cyclic, Unspecified, Budget):
+            return []
+        return [(r[1], r[2])] if r[0] == 'violation' else []
     if 'long' in case:
         r = check_long(*case['long'])
         return [(r[1], r[2])] if r[0] == 'violation' else []
